@@ -18,6 +18,7 @@ TRANSFORMS = [
     "X6 ghost text from the unit template is spliced in: named return, requires/ensures/decreases, loop invariants, ghost iterator names, proof blocks",
     "X7 `impl Trait` in argument position is kept; visibility qualifiers pub(crate)/pub(super) are rewritten to pub",
     "X9 assert_eq!(a, b) / debug_assert_eq!(a, b) -> assert!((a) == (b)) / debug_assert!((a) == (b)) (same panic condition; the formatted message, which needs Debug, is dropped)",
+    "X11 (directive //@deimpl, unit c19_map only) `f: impl Bound` in argument position -> `f: ImplN` with a generic parameter `ImplN: Bound` (the desugaring rustc performs; Verus 0.2026.09.13 crashes on `requires` over impl-Trait arguments of trait methods)",
     "X8 where Verus forbids `requires` on an impl of a std trait (Iterator::next), the extracted method body is checked as an impl of a local trait of the same shape declared in the unit (c10_earcut_glue: IteratorWithInvariant)",
 ]
 
@@ -286,6 +287,9 @@ def splice_fn(src, item, ann):
         raise ExtractError('%s::%s has no body' % (src.rel, item.name))
     sig = src.text[item.sig_start:item.body_open]
     body = src.text[item.body_open:item.end]
+    # ---- signature: X11 `name: impl Bound` in argument position -> a named generic parameter (what the sugar stands for)
+    if ann.get('deimpl'):
+        sig = deimpl_sig(sig, src, item)
     # ---- signature: named return
     if ann.get('ret'):
         st = _retok(sig)
@@ -411,6 +415,64 @@ def splice_fn(src, item, ann):
     spec = ann.get('spec') or ''
     head = '// ---- extracted verbatim from %s:%d (sha256/16 %s) ----\n' % (src.rel, src.line_of(item.sig_start), src.sha)
     return head + sig.rstrip() + '\n' + spec.rstrip() + '\n' + body + '\n'
+
+
+def deimpl_sig(sig, src, item):
+    """rewrite every `impl Bound` argument type of the signature into a fresh generic parameter `ImplN: Bound`"""
+    st = _retok(sig)
+    # position of the fn name and of its parameter list
+    kfn = next(k for k, t in enumerate(st) if t[0] == 'ident' and t[1] == 'fn')
+    kname = kfn + 1
+    while st[kname][0] == 'ws': kname += 1
+    kpar = _find_top(st, kname + 1, lambda t: t[1] == '(')
+    if kpar < 0:
+        raise ExtractError('%s::%s: no parameter list' % (src.rel, item.name))
+    kclose = match_close(st, kpar)
+    bounds = []
+    edits = []  # (start_off, end_off, text) on sig
+    k = kpar + 1
+    while k < kclose:
+        t = st[k]
+        if t[0] == 'ident' and t[1] == 'impl':
+            # the bound runs to the next `,` or the closing paren at angle/paren depth 0
+            j, depth, ang = k + 1, 0, 0
+            while j < kclose:
+                u = st[j]
+                if u[0] == 'punct' and u[1] in OPEN:
+                    j = match_close(st, j) + 1; continue
+                if u[1] == '<': ang += 1
+                elif u[1] == '>' and st[j - 1][1] != '-': ang -= 1
+                elif u[1] == ',' and ang == 0: break
+                j += 1
+            bound = sig[st[k + 1][2]:st[j - 1][3]].strip().rstrip(',').strip()
+            name = 'Impl%d' % len(bounds)
+            bounds.append('%s: %s' % (name, bound))
+            edits.append((st[k][2], st[j - 1][3], name))
+            k = j
+            continue
+        if t[0] == 'punct' and t[1] in OPEN:
+            k = match_close(st, k) + 1; continue
+        k += 1
+    if not bounds:
+        return sig
+    # generics: extend an existing `<..>` right after the name, or add one
+    kn = kname + 1
+    while st[kn][0] == 'ws': kn += 1
+    if st[kn][1] == '<':
+        # find its closing `>`
+        j, ang = kn, 0
+        while True:
+            if st[j][1] == '<': ang += 1
+            elif st[j][1] == '>' and st[j - 1][1] != '-':
+                ang -= 1
+                if ang == 0: break
+            j += 1
+        edits.append((st[j][2], st[j][2], ', ' + ', '.join(bounds)))
+    else:
+        edits.append((st[kname][3], st[kname][3], '<' + ', '.join(bounds) + '>'))
+    for a, b, txt in sorted(edits, key=lambda e: -e[0]):
+        sig = sig[:a] + txt + sig[b:]
+    return sig
 
 
 def splice_type(src, item):
